@@ -55,6 +55,15 @@ fn gen_row(rng: &mut Rng) -> (Vec<String>, Vec<(String, u32)>, bool) {
             push_hex(&mut toks, &mut hex, rng);
             toks.push("-".into());
             push_hex(&mut toks, &mut hex, rng);
+            // one range in eight has exactly one element
+            if rng.chance(1, 8) {
+                let n = hex.len();
+                let v = hex[n - 2].1;
+                let t2 = hex_tok(rng, v);
+                let l = toks.len();
+                toks[l - 1] = t2.clone();
+                hex[n - 1] = (t2, v);
+            }
             // keep start <= end: a reversed range is not asserted either way
             let n = hex.len();
             if hex[n - 2].1 > hex[n - 1].1 {
@@ -65,7 +74,7 @@ fn gen_row(rng: &mut Rng) -> (Vec<String>, Vec<(String, u32)>, bool) {
         }
         16 => {
             corrupted = true;
-            toks.push(rng.pick(&["110000", "FFFFFFFF", "100000000", "00G1", "XYZ", "12 34", "0x41"]).to_string());
+            toks.push(rng.pick(&["110000", "FFFFFFFF", "100000000", "00G1", "XYZ", "12 34", "0x41", "004\u{c9}", "\u{20ac}", "0041-005\u{ff21}", "\u{1f600}41"]).to_string());
         }
         17 => {
             corrupted = true; // empty column
@@ -97,7 +106,7 @@ fn gen_row(rng: &mut Rng) -> (Vec<String>, Vec<(String, u32)>, bool) {
         }
         16 => {
             corrupted = true;
-            toks.push(rng.pick(&["BOGUS", "pvalid", "PVALID_", "ID_DIS or", "VALID"]).to_string());
+            toks.push(rng.pick(&["BOGUS", "pvalid", "PVALID_", "ID_DIS or", "VALID", "PVALI\u{110}", "\u{20ac}", "ID_DIS or FREE_PVA\u{141}"]).to_string());
         }
         17 => {
             corrupted = true; // empty
